@@ -256,6 +256,7 @@ class Explorer:
         chunks = contiguous_chunks(ordered, costs, max(1, n_chunks))
         self.ref_chunks = chunks
         self.reference = {False: {}, True: {}}
+        self.reference_messages = {False: {}, True: {}}
         self.op_lines: dict = {}
         self.reference_arrays = {False: [], True: []}
         t0 = time.monotonic()
@@ -276,6 +277,7 @@ class Explorer:
                 if res["session"]["default_float"] != want:
                     self.errors.append(f"reference session dtype {res['session']['default_float']} != {want}")
                 self.reference[x64].update(res["table"])
+                self.reference_messages[x64].update(res.get("messages", {}))
                 for k, ls in res.get("lines", {}).items():
                     self.op_lines[k] = ls
         self.reference_arrays = {x: [p for p in ps if os.path.exists(p)] for x, ps in self.reference_arrays.items()}
@@ -493,6 +495,7 @@ class Explorer:
         keys = sorted(set(keys))
         ref = {False: {}, True: {}}
         arrays = {False: [], True: []}
+        self.isolated_messages = {False: {}, True: {}}
         with cf.ThreadPoolExecutor(self.jobs) as ex:
             futs = []
             for x64 in (False, True):
@@ -506,6 +509,7 @@ class Explorer:
                     self.errors.append(f"isolated reference {res['tag']}: {res['worker_error']}")
                     continue
                 ref[x64].update(res["table"])
+                self.isolated_messages[x64].update(res.get("messages", {}))
                 arrays[x64].append(arr)
         return ref, arrays
 
